@@ -22,6 +22,7 @@ R = Registry('C15')
 
 
 class Shade(SerializableEnum):
+    OFF = 0          # a member whose underlying value is falsy
     DARK = 1
     LIGHT = 2
 
@@ -45,7 +46,7 @@ def leafval(kind, name):
     if kind == 'bool':
         return symbool(name)
     if kind == 'enum':
-        return [Shade.DARK, Shade.LIGHT][choose(2, name + '_member')]
+        return [Shade.OFF, Shade.DARK, Shade.LIGHT][choose(3, name + '_member')]
     if kind == 'ser':
         o = Inner()
         o.n = symint(name + '_n')
@@ -176,6 +177,7 @@ def real_world():
     s = real('mpgameserver.serializable')
 
     class Shade(s.SerializableEnum):
+        OFF = 0
         DARK = 1
         LIGHT = 2
 
@@ -208,7 +210,7 @@ def replay_l151(cfg, m):
         if kind == 'bool':
             return bool(m.get(name, False))
         if kind == 'enum':
-            return [w['Shade'].DARK, w['Shade'].LIGHT][[v for k, v in m.items() if k.startswith(name + '_member')][0]]
+            return [w['Shade'].OFF, w['Shade'].DARK, w['Shade'].LIGHT][[v for k, v in m.items() if k.startswith(name + '_member')][0]]
         if kind == 'ser':
             o = w['Inner']()
             o.n = m.get(name + '_n', 0)
